@@ -640,31 +640,19 @@ func (sf *file) prefetchEntireFile(entireCacheID string, chunks []chunkData, tot
 	}
 	defer w.Close()
 
-	batchCount := (totalSize + bufferSize - 1) / bufferSize
-
-	for batchIdx := range batchCount {
-		batchStart := batchIdx * bufferSize
-		batchEnd := min((batchIdx+1)*bufferSize, totalSize)
-
-		var batchChunks []chunkData
-		var batchOffset int64
-		for i := range chunks {
-			chunkStart := chunks[i].offset
-			chunkEnd := chunkStart + chunks[i].size
-
-			if chunkEnd <= batchStart {
-				continue
-			}
-			if chunkStart >= batchEnd {
-				break
-			}
-
-			chunks[i].bufferPos = batchOffset
-			batchOffset += chunks[i].size
-			batchChunks = append(batchChunks, chunks[i])
+	// A batch is a run of consecutive whole chunks that fits into the merge buffer. Chunks
+	// never straddle two batches: chunk boundaries needn't be aligned to the buffer size.
+	for start := 0; start < len(chunks); {
+		var batchSize int64
+		end := start
+		for end < len(chunks) && (end == start || batchSize+chunks[end].size <= bufferSize) {
+			chunks[end].bufferPos = batchSize
+			batchSize += chunks[end].size
+			end++
 		}
+		batchChunks := chunks[start:end]
+		start = end
 
-		batchSize := batchEnd - batchStart
 		buffer := make([]byte, batchSize)
 
 		eg := errgroup.Group{}
